@@ -6,7 +6,7 @@ package revocation
 
 import "github.com/privacybydesign/gabi/big"
 
-// VerifDerivedParameters returns the derived revocation parameters b, 2^(k'+k''), B*2^(k'+k''+1).
+// VerifDerivedParameters returns the derived revocation parameters b, 2^(k'+k”), B*2^(k'+k”+1).
 func VerifDerivedParameters() (*big.Int, *big.Int, *big.Int) {
 	return Parameters.b, Parameters.twoZk, Parameters.bTwoZk
 }
